@@ -64,6 +64,26 @@ def random_layout(rng: random.Random, need: Optional[Dict[str, set]] = None) -> 
     return layout
 
 
+def derived_layout(histories: Dict[str, Dict[str, Any]]) -> Dict[str, Any]:
+    """Layout chosen as a function of the input's content (so that a replayed case gets the same one): one third of the
+    inputs use the canonical layout, the others a random column permutation, table order, junk columns and blank rows. Every
+    field that carries a value in some row, and the unique id, is always mapped."""
+    import hashlib
+    import json
+
+    digest = hashlib.sha1(json.dumps(histories, sort_keys=True, default=str).encode()).hexdigest()
+    seed = int(digest[:12], 16)
+    if seed % 3 == 0:
+        return default_layout()
+    need: Dict[str, set] = {"IN": {"unique_id"}, "OUT": {"unique_id"}, "INTRA": {"unique_id"}}
+    for hist in histories.values():
+        for r in hist["rows"]:
+            for key, field in ROW_KEYS[r["t"]].items():
+                if r.get(key) not in (None, ""):
+                    need[r["t"]].add(field)
+    return random_layout(random.Random(seed), need=need)
+
+
 def write_ini(
     path: str,
     assets: Sequence[str],
